@@ -162,6 +162,11 @@ func (g *genSt) event() {
 	r := g.c.R
 	vb := g.pickVb()
 	v := g.vbs[vb]
+	if v.next == 0 || v.next > 1<<63 {
+		// the seqno space of this vBucket is (nearly) exhausted: a real server sends nothing more
+		g.do(fmt.Sprintf("oso %d", vb))
+		return
+	}
 	ill := r.Chance(g.p.pIllFormed)
 	if ill {
 		g.tags["ill-formed"] = true
